@@ -299,7 +299,12 @@ let handle (fields : string list) : string * string =
       | None -> "fail:bad-observation"
       | Some i ->
         let a = String.trim (String.sub impl 0 i) and b = String.trim (String.sub impl (i + 1) (String.length impl - i - 1)) in
-        if strip_n a = strip_n b then "ok" else "fail:" ^ cls in
+        let n_of o = List.fold_left (fun acc t -> if String.length t > 2 && String.sub t 0 2 = "N:"
+                                       then int_of_string (String.sub t 2 (String.length t - 2)) else acc) 0 (split_on ' ' o) in
+        if strip_n a <> strip_n b then "fail:" ^ cls
+        else if cls = "unframeable-header-over-two-reads" && n_of a > n_of (obs seg)
+        then "fail:unframeable-stream-keeps-being-read" (* the tunnel must end at the read that completes the bad header *)
+        else "ok" in
     (m, verdict)
   | "relay" :: bodies :: writes :: impl :: [] ->
     (* client DATA bodies and host writes (net.Pipe: every write is handed over in
